@@ -693,6 +693,20 @@ def _finalize_finish(c, outcome, args, old):
     names = [e.callee for e in c.trace if e.kind == "call" and e.callee in CLEANUP_CALLEES]
     c.prove("cleanup_all_or_nothing", tm.mk_bool(names in ([], list(CLEANUP_CALLEES))), kind="post",
             detail=f"cleanup calls on this path: {names}")
+    if names == list(CLEANUP_CALLEES):
+        # C05: what the clean-up decided to remove has to survive a kill.  The nodes of the orphans are deleted in the
+        # transaction around delete_detached; the paths to remove are queued in the in-memory Workflow.to_be_deleted
+        # and worked through by remove_deletable_files.  Unless the removal happens before that transaction ends (or
+        # the queue is stored), a kill in between leaves files that no later build knows about.
+        pos = {e.callee: e.index for e in c.trace if e.kind == "call" and e.callee in CLEANUP_CALLEES}
+        begins = [e.index for e in c.trace if e.kind == "tx.begin"]
+        ends = [e.index for e in c.trace if e.kind == "tx.end"]
+        d = pos["Workflow.delete_detached"]
+        span = [(a, b) for a, b in zip(begins, ends) if a < d < b]
+        inside = bool(span) and span[0][0] < pos["remove_deletable_files"] < span[0][1]
+        c.prove("queued_removals_survive_a_kill", tm.mk_bool(inside), kind="post",
+                detail="the transaction that deletes the nodes of the orphans ends before remove_deletable_files starts, "
+                       "and the queue Workflow.to_be_deleted lives in memory only")
     rc_calls = [e for e in c.trace if e.kind == "call" and e.callee == "report_unbuilt"]
     c.prove("returncode_is_report", tm.mk_bool(len(rc_calls) == 1 and args["self"].returncode is rc_calls[0].result),
             kind="post")
@@ -711,7 +725,8 @@ class builder_finalize:
     modifies = ["self.returncode", "self.workflow.to_be_deleted"]
     # C05: the clean-up of a complete build does not depend on what this session happened to execute (a restarted build
     # that only skips must still remove what a killed session left detached)
-    partial_props = {"C05": ["cleanup_all_or_nothing"]}
+    partial_props = {"C05": ["cleanup_all_or_nothing", "queued_removals_survive_a_kill"]}
+    only_partial = ("queued_removals_survive_a_kill",)  # a statement about kills: C05 only
 
 
 @structural("C06/scan/clean_tool_is_read_only", props=["C06"],
@@ -732,3 +747,24 @@ def clean_read_only():
     out.append(("scan/clean_tool_is_read_only/clean_tool", "connect_graph_db" in calls and "connect" not in calls,
                 f"calls {sorted(set(calls))}"))
     return out
+
+
+from vc.report import replayer  # noqa: E402
+
+
+@replayer("C05/Builder.finalize/queued_removals_survive_a_kill")
+def replay_f12(o):
+    """The committed history specs/replay/F12_kill_between_delete_and_remove.py: build, drop a step from the plan,
+    rebuild; once uninterrupted, once killed between the delete transaction and the removal and restarted."""
+    import os
+    import subprocess
+
+    from vc.report import VERIF
+
+    script = os.path.join(VERIF, "specs", "replay", "F12_kill_between_delete_and_remove.py")
+    r = subprocess.run(["/venv/bin/python", script], cwd=extract.REPO, capture_output=True, text=True,
+                       env={"PYTHONPATH": extract.REPO, "PATH": "/usr/bin:/bin"})
+    return dict(reproduced=r.returncode == 1, python=open(script).read(), output=(r.stdout + r.stderr)[-1500:],
+                witness=dict(history="build; drop `cp a.txt out.txt` from the plan; rebuild, killed after the commit of "
+                                     "delete_detached; restart",
+                             claim="out.txt stays on disk for good; the uninterrupted rebuild removes it"))
